@@ -16,7 +16,11 @@ use scpi_contrib::{
 };
 use scpi::error::ErrorQueue;
 
-pub struct Dev {
+/// `DevG<false>` is the device of the example; `DevG<true>` (DevV) is a device with a THIRD, device-dependent register set
+/// (`STATus:VOLTage`, built with the same generic commands through scpi_register!) that overrides the documented hooks
+/// `ScpiDevice::preset()` and `IEEE4882::cls()` to cover it
+pub struct DevG<const CUSTOM: bool> {
+    pub voltage: EventRegister,
     pub esr: u8,
     pub ese: u8,
     pub sre: u8,
@@ -28,21 +32,30 @@ pub struct Dev {
     pub hook_calls: usize,
 }
 
-impl Dev {
+pub type Dev = DevG<false>;
+pub type DevV = DevG<true>;
+pub struct Voltage;
+impl scpi_contrib::scpi1999::EventRegisterName for Voltage { type BitFlags = scpi_contrib::scpi1999::status::operation::OperationBits; }
+impl<const C: bool> GetEventRegister<Voltage> for DevG<C> {
+    fn register(&self) -> &EventRegister { &self.voltage }
+    fn register_mut(&mut self) -> &mut EventRegister { &mut self.voltage }
+}
+
+impl<const C: bool> DevG<C> {
     pub fn new() -> Self {
-        Dev { esr: 0, ese: 0, sre: 0, operation: EventRegister::default(), questionable: EventRegister::default(),
+        DevG { voltage: EventRegister::default(), esr: 0, ese: 0, sre: 0, operation: EventRegister::default(), questionable: EventRegister::default(),
               errors: Vec::new(), bounded: None, tst: None, hook_calls: 0 }
     }
 }
 
-impl Device for Dev {
+impl<const C: bool> Device for DevG<C> where DevG<C>: ScpiDevice {
     fn handle_error(&mut self, err: Error) {
         self.hook_calls += 1;
         self.push_error(err)
     }
 }
 
-impl IEEE4882 for Dev {
+impl<const C: bool> IEEE4882 for DevG<C> where DevG<C>: ScpiDevice {
     fn stb(&self) -> u8 { self.scpi_stb() }
     fn sre(&self) -> u8 { self.sre }
     fn set_sre(&mut self, value: u8) { self.sre = value }
@@ -52,30 +65,39 @@ impl IEEE4882 for Dev {
     fn set_ese(&mut self, value: u8) { self.ese = value }
     fn tst(&mut self) -> Result<()> { match self.tst { None => Ok(()), Some(e) => Err(e) } }
     fn rst(&mut self) -> Result<()> { Ok(()) }
-    fn cls(&mut self) -> Result<()> { self.scpi_cls() }
+    fn cls(&mut self) -> Result<()> { if C { self.voltage.clear_event(); } self.scpi_cls() }
     fn opc(&mut self) -> Result<()> { self.scpi_opc() }
 }
 
-impl GetEventRegister<Operation> for Dev {
+impl<const C: bool> GetEventRegister<Operation> for DevG<C> {
     fn register(&self) -> &EventRegister { &self.operation }
     fn register_mut(&mut self) -> &mut EventRegister { &mut self.operation }
 }
-impl GetEventRegister<Questionable> for Dev {
+impl<const C: bool> GetEventRegister<Questionable> for DevG<C> {
     fn register(&self) -> &EventRegister { &self.questionable }
     fn register_mut(&mut self) -> &mut EventRegister { &mut self.questionable }
 }
-impl ErrorQueue for Dev {
+impl<const C: bool> ErrorQueue for DevG<C> {
     fn push_back_error(&mut self, err: Error) { match &mut self.bounded { Some(q) => q.push_back_error(err), None => self.errors.push_back_error(err) } }
     fn pop_front_error(&mut self) -> Option<Error> { match &mut self.bounded { Some(q) => q.pop_front_error(), None => self.errors.pop_front_error() } }
     fn num_errors(&self) -> usize { match &self.bounded { Some(q) => q.num_errors(), None => self.errors.num_errors() } }
     fn clear_errors(&mut self) { match &mut self.bounded { Some(q) => q.clear_errors(), None => self.errors.clear_errors() } }
 }
-impl ScpiDevice for Dev {}
+impl ScpiDevice for DevG<false> {}
+impl ScpiDevice for DevG<true> {
+    // the documented way to cover device-dependent register sets: STATus:PRESet must go through this hook
+    fn preset(&mut self) -> Result<()> {
+        self.preset_register::<Operation>();
+        self.preset_register::<Questionable>();
+        self.preset_register::<Voltage>();
+        Ok(())
+    }
+}
 
 /// `*ERR <code>[,<string ext>]`: handler-raised error of any class
 struct ErrCommand;
-impl Command<Dev> for ErrCommand {
-    fn event(&self, _d: &mut Dev, _c: &mut Context, mut params: Parameters) -> Result<()> {
+impl<const C: bool> Command<DevG<C>> for ErrCommand where DevG<C>: ScpiDevice {
+    fn event(&self, _d: &mut DevG<C>, _c: &mut Context, mut params: Parameters) -> Result<()> {
         let code: i16 = params.next_data()?;
         let ext: Option<&[u8]> = params.next_optional_data()?;
         let e = match ErrorCode::get_error(code) {
@@ -101,6 +123,28 @@ pub const TREE: Node<Dev> = Root![
     scpi_system!(),
     Leaf { name: b"*ERR", default: false, handler: &ErrCommand }
 ];
+
+/// the tree of the device with a third register set: STATus:VOLTage through scpi_register!, everything else as TREE
+pub const TREE_V: Node<DevV> = Root![
+    ieee488_cls!(), ieee488_ese!(), ieee488_esr!(), ieee488_idn!(b"Example Inc", b"T800-101", b"0", b"0"), ieee488_opc!(), ieee488_rst!(),
+    ieee488_sre!(), ieee488_stb!(), ieee488_tst!(), ieee488_wai!(),
+    scpi_status!(scpi_contrib::scpi_register!(b"VOLTage", Voltage)),
+    scpi_system!(),
+    Leaf { name: b"*ERR", default: false, handler: &ErrCommand }
+];
+/// rewrite OPERation -> VOLTage in a message (same length is not needed: only done for messages without block data or
+/// strings); None when the message cannot be rewritten safely
+fn oper_to_volt(msg: &[u8]) -> Option<Vec<u8>> {
+    if msg.iter().any(|&b| b == b'#' || b == b'"' || b == b'\'' || b == b'(') { return None; }
+    let up: Vec<u8> = msg.to_ascii_uppercase();
+    let mut out = Vec::new(); let mut i = 0;
+    while i < msg.len() {
+        if up[i..].starts_with(b"OPERATION") { out.extend_from_slice(b"VOLTAGE"); i += 9; }
+        else if up[i..].starts_with(b"OPER") && !up[i..].starts_with(b"OPERA") { out.extend_from_slice(b"VOLT"); i += 4; }
+        else { out.push(msg[i]); i += 1; }
+    }
+    Some(out)
+}
 
 /// the same tree with the STATus branch built BY HAND from the documented command aliases (StatOper*Command /
 /// StatQues*Command) instead of the scpi_status! macro: both must behave alike
@@ -171,7 +215,7 @@ fn probe488(d: &mut Dev488) -> Option<String> {
     None
 }
 
-fn regs_only(d: &Dev) -> String {
+fn regs_only<const C: bool>(d: &DevG<C>) -> String {
     format!("esr={};ese={};sre={};o={};u={}", d.esr, d.ese, d.sre, reg(&d.operation), reg(&d.questionable))
 }
 
@@ -179,7 +223,7 @@ fn reg(r: &EventRegister) -> String {
     format!("{},{},{},{},{}", r.condition, r.event, r.enable, r.ntr_filter, r.ptr_filter)
 }
 
-fn state(d: &Dev) -> String {
+fn state<const C: bool>(d: &DevG<C>) -> String {
     let q: Vec<String> = d.errors.iter().map(show_error).collect();
     format!("q={};esr={};ese={};sre={};o={};u={};h={}", if q.is_empty() { "-".to_string() } else { q.join(",") },
             d.esr, d.ese, d.sre, reg(&d.operation), reg(&d.questionable), d.hook_calls)
@@ -199,12 +243,17 @@ fn run_mode(args: &[&str], count_allocs: bool) -> String {
     // shadow devices (not under the allocation counter): (a) the hand-built alias tree, which must behave exactly like
     // the macro-built one; (b) a device with the library's fixed-capacity queue (4 entries), whose ESR / ESE / SRE /
     // status registers must not depend on the capacity of the error queue
-    let mut da = Dev::new(); let mut ctxa = Context::new();
+    let mut da = Dev::new(); let mut ctxa = Context::default();
+    da.operation = EventRegister::new(); da.questionable = EventRegister::new();   // new() and default() must agree
     let mut db = Dev::new(); db.bounded = Some(arrayvec::ArrayVec::new()); let mut ctxb = Context::new();
     // (c) a device implementing only IEEE 488.2, whose `*STB?` goes through the DEFAULT `IEEE4882::stb()`: it gets every
     // message too (SCPI headers simply fail on it with -113 and set the command-error bit) and after each one its
     // status byte, ESE and SRE are probed against the 488.2 reading computed from its own registers
     let mut d488 = Dev488 { esr: 0, ese: 0, sre: 0 }; let mut ctx488 = Context::new();
+    // (d) a device with a third register set STATus:VOLTage that overrides preset()/cls(): it gets every message with
+    // OPERation rewritten to VOLTage (and every device-side OPERation condition change on its VOLTage register); its
+    // VOLTage register must then evolve exactly like the main device's OPERation register
+    let mut dv = DevV::new(); let mut ctxv = Context::new(); let mut dv_sync = true;
     let shadows = !count_allocs;
     let mut out = Vec::new();
     for step in args.get(0).unwrap_or(&"").split('|') {
@@ -232,6 +281,17 @@ fn run_mode(args: &[&str], count_allocs: bool) -> String {
                     ctx488.mav = ctx.mav;
                     let mut r4: Vec<u8> = Vec::new();
                     let _ = TREE_488.run(&msg, &mut d488, &mut ctx488, &mut r4);
+                    if dv_sync {
+                        match oper_to_volt(&msg) {
+                            Some(mv) => {
+                                ctxv.mav = ctx.mav;
+                                let mut rv: Vec<u8> = Vec::new();
+                                let _ = TREE_V.run(&mv, &mut dv, &mut ctxv, &mut rv);
+                                if reg(&dv.voltage) != reg(&d.operation) { shadow_note.push_str(&format!(" CUSTOM-REGISTER-DEVICE-DIFFERS[{}]", reg(&dv.voltage))); }
+                            }
+                            None => dv_sync = false,     // not rewritable: stop comparing for the rest of this history
+                        }
+                    }
                     if let Some(why) = probe488(&mut d488) { shadow_note.push_str(&format!(" IEEE488-ONLY-DEVICE-DIFFERS[{}]", why)); }
                 }
                 if count_allocs {
@@ -246,9 +306,14 @@ fn run_mode(args: &[&str], count_allocs: bool) -> String {
             b'c' => {
                 let v: u16 = val.parse().unwrap();
                 d.hook_calls = 0;
-                if head.as_bytes()[1] == b'o' { d.operation.set_condition(v); da.operation.set_condition(v); db.operation.set_condition(v) }
+                if head.as_bytes()[1] == b'o' { d.operation.set_condition(v); da.operation.set_condition(v); db.operation.set_condition(v); dv.voltage.set_condition(v) }
                 else { d.questionable.set_condition(v); da.questionable.set_condition(v); db.questionable.set_condition(v) }
-                out.push(format!("- - {}", state(&d)));
+                // get_condition_bit reads the condition register bit by bit
+                let mut note = String::new();
+                for r in [&d.operation, &d.questionable] {
+                    for k in 0..16 { if r.get_condition_bit(1 << k) != ((r.condition >> k) & 1 == 1) { note = format!(" CONDITION-BIT-DIFFERS[{}]", k); } }
+                }
+                out.push(format!("- - {}{}", state(&d), note));
             }
             b'b' | b'x' => {
                 // b<o|q>:<mask> set_condition_bits, x<o|q>:<mask> clear_condition_bits
@@ -258,6 +323,7 @@ fn run_mode(args: &[&str], count_allocs: bool) -> String {
                     let r = if head.as_bytes()[1] == b'o' { &mut dev.operation } else { &mut dev.questionable };
                     if head.as_bytes()[0] == b'b' { r.set_condition_bits(v) } else { r.clear_condition_bits(v) }
                 }
+                if head.as_bytes()[1] == b'o' { if head.as_bytes()[0] == b'b' { dv.voltage.set_condition_bits(v) } else { dv.voltage.clear_condition_bits(v) } }
                 out.push(format!("- - {}", state(&d)));
             }
             b't' => {
